@@ -113,10 +113,35 @@ func c15Unrep(v any) bool {
 	return false
 }
 
-// c15Events runs code on v and records what Next() yields up to and including the first error.
-func c15Events(code *gojq.Code, v any, maxOut int, budget time.Duration) (evs []any, flags vlib.M) {
+// c15Side collects the calls of the command-provided functions `debug` and `stderr` made while a run executes
+// (the library user's functions: the harness only records that they were called, with which value, in order).
+type c15Side struct {
+	evs   *[]any
+	unrep bool
+}
+
+func (s *c15Side) fn(kind string) func(any, []any) any {
+	return func(v any, _ []any) any {
+		if s.evs != nil {
+			if c15Unrep(v) {
+				s.unrep = true
+			}
+			*s.evs = append(*s.evs, vlib.M{"k": kind, "v": vlib.EncVal(v)})
+		}
+		return v
+	}
+}
+
+// c15Events runs code on v and records what Next() yields up to and including the first error,
+// interleaved with the debug/stderr calls.
+func c15Events(code *gojq.Code, side *c15Side, v any, maxOut int, budget time.Duration) (evs []any, flags vlib.M) {
 	evs, flags = []any{}, vlib.M{}
+	side.evs, side.unrep = &evs, false
 	defer func() {
+		side.evs = nil
+		if side.unrep {
+			flags["unrep"] = true
+		}
 		if e := recover(); e != nil {
 			flags["panic"] = fmt.Sprint(e)
 		}
@@ -192,23 +217,26 @@ func c15Lib(query, stdin string, maxOut int, budget time.Duration) vlib.M {
 		res["query"] = "parse"
 		return res
 	}
-	code, err := gojq.Compile(q)
+	side := &c15Side{}
+	code, err := gojq.Compile(q,
+		gojq.WithFunction("debug", 0, 0, side.fn("dbg")),
+		gojq.WithFunction("stderr", 0, 0, side.fn("stderr")))
 	if err != nil {
 		res["query"] = "compile"
 		return res
 	}
 	res["query"] = "ok"
-	evs, f := c15Events(code, nil, maxOut, budget)
+	evs, f := c15Events(code, side, nil, maxOut, budget)
 	res["onull"] = evs
 	merge(f)
 	if !bad {
-		evs, f := c15Events(code, docs, maxOut, budget)
+		evs, f := c15Events(code, side, docs, maxOut, budget)
 		res["oslurp"] = evs
 		merge(f)
 	}
 	runs := []any{}
 	for _, d := range docs {
-		evs, f := c15Events(code, d, maxOut, budget)
+		evs, f := c15Events(code, side, d, maxOut, budget)
 		runs = append(runs, evs)
 		merge(f)
 	}
